@@ -7,7 +7,7 @@
    GaussianElectionModel.get_aggregate_prediction_intervals. *)
 EXTENDS GaussianFallback, Json
 
-CONSTANTS LeafKeys, CalVals, Ls, Export
+CONSTANTS LeafKeys, CalVals, Ls, Export, Canonical
 
 \* leaf universes (cfg files cannot contain tuples)
 LK_1x2   == {<<1, 1>>, <<1, 2>>}
@@ -25,11 +25,22 @@ CV_Tiny  == {0, 3, 10}
 L_12     == {1, 2}
 L_123    == {1, 2, 3}
 
+\* Symmetry reduction (Canonical = TRUE, only used for the largest universe): the specification never looks at the
+\* value of a state id, only at equality and at the sort order of rows, and every invariant is invariant under renaming
+\* the states; of two scenarios that differ only by swapping state 1 and state 2 it is enough to explore the one whose
+\* state-1 vector of (count, outstanding) codes is lexicographically not smaller.
+StateVec(cal, out, s) ==
+  LET ks == SortKeys({k \in LeafKeys : k[1] = s})
+  IN  [j \in 1..Len(ks) |-> 2 * cal[ks[j]] + (IF out[ks[j]] THEN 1 ELSE 0)]
+CanonOK(cal, out) ==
+  Canonical => ~KeyLessAt(StateVec(cal, out, 1), StateVec(cal, out, 2), 1)
+
 Init ==
   /\ \E cal \in [LeafKeys -> CalVals], out \in [LeafKeys -> BOOLEAN], l \in Ls :
        LET present == {k \in LeafKeys : cal[k] > 0 \/ out[k]}
            ks      == SortKeys(present)
-       IN  sc = [L |-> l, leaves |-> [j \in 1..Len(ks) |-> [key |-> ks[j], cal |-> cal[ks[j]], out |-> out[ks[j]]]]]
+       IN  /\ CanonOK(cal, out)
+           /\ sc = [L |-> l, leaves |-> [j \in 1..Len(ks) |-> [key |-> ks[j], cal |-> cal[ks[j]], out |-> out[ks[j]]]]]
   /\ InDomain
   /\ InitRest
 
